@@ -649,7 +649,9 @@ pub fn gen_module(r: &mut Rng, cfg: &Cfg) -> Module {
     // types
     let nty = 2 + r.below(4);
     for _ in 0..nty {
-        let np = r.below(4);
+        // mostly 0-3 parameters; sometimes around the multiples of ten, where the V1 schedule's
+        // per-ten rounding (type checks, invocation) changes value
+        let np = if r.chance(1, 8) { *r.pick(&[8u64, 9, 10, 11, 19, 20, 21, 29, 30, 31]) } else { r.below(4) };
         m.types.push(FuncTy { params: (0..np).map(|_| rty(r)).collect(), result: if r.chance(2, 3) { Some(rty(r)) } else { None } });
     }
     // fixed import types
